@@ -4,6 +4,7 @@ package main
 
 import (
 	"fmt"
+	"sync"
 
 	"verif/harness/vh"
 )
@@ -24,13 +25,11 @@ type Sweep struct {
 	Dim      string   `json:"dim"` // "type" | "class"
 	Beh      int      `json:"beh"` // index into Behaviours
 	Base     Map      `json:"base"`
-	A, B     string   // abstract symbols (json below)
 	SymA     string   `json:"sym_a"`
 	SymB     string   `json:"sym_b"`
 	Partners []string `json:"partners"`
-	From, To int
-	Lo       int `json:"lo"`
-	Hi       int `json:"hi"`
+	Lo       int      `json:"lo"`
+	Hi       int      `json:"hi"`
 }
 
 // Mass: all 65536 values of one dimension in ONE plugin instance: store every value, look every
@@ -53,19 +52,19 @@ type StepObs struct {
 }
 
 type C04Rec struct {
-	Kind  string    `json:"kind"` // replay | sweep | mass | summary
-	Beh   int       `json:"beh"`
-	Map   int       `json:"map"`
-	Tag   string    `json:"tag"`
-	Steps []StepObs `json:"steps,omitempty"`
-	Match bool      `json:"match"`
-	Value int       `json:"value,omitempty"`
-	Partner string  `json:"partner,omitempty"`
-	N     int       `json:"n,omitempty"`
-	Hits  int       `json:"hits,omitempty"`
-	Mism  int       `json:"mism,omitempty"`
-	Note  string    `json:"note,omitempty"`
-	MapV  *Map      `json:"mapv,omitempty"`
+	Kind    string    `json:"kind"` // replay | sweep | mass | summary
+	Beh     int       `json:"beh"`
+	Map     int       `json:"map"`
+	Tag     string    `json:"tag"`
+	Steps   []StepObs `json:"steps,omitempty"`
+	Match   bool      `json:"match"`
+	Value   int       `json:"value,omitempty"`
+	Partner string    `json:"partner,omitempty"`
+	N       int       `json:"n"`
+	Hits    int       `json:"hits"`
+	Mism    int       `json:"mism"`
+	Note    string    `json:"note,omitempty"`
+	MapV    *Map      `json:"mapv,omitempty"`
 }
 
 // toAbs maps a concrete observation back through the map; serial numbers are the harness' own and
@@ -152,87 +151,145 @@ func partner(name string, v int) int {
 }
 
 func runC04(j *C04Job) error {
-	in, err := newInst(0, 1<<21)
-	if err != nil {
-		return err
-	}
-	defer in.close()
+	const W = 8
+	var mu sync.Mutex
 	total, mism, hits := 0, 0, 0
-	emit := func(kind string, bi, mi int, m *Map, steps []StepObs, match bool, extra func(*C04Rec)) {
+	emit := func(kind string, bi, mi int, m *Map, steps []StepObs, match bool, h int, extra func(*C04Rec)) {
+		mu.Lock()
 		total++
+		hits += h
 		if !match {
 			mism++
 		}
-		if j.Detail || !match {
-			if !match && mism > 400 && !j.Detail {
-				return
-			}
-			r := C04Rec{Kind: kind, Beh: bi, Map: mi, Tag: m.Tag, Steps: steps, Match: match}
-			if kind != "replay" {
-				r.MapV = m
-			}
-			if extra != nil {
-				extra(&r)
-			}
-			vh.Emit(r)
+		skip := !j.Detail && (match || mism > 400)
+		mu.Unlock()
+		if skip {
+			return
 		}
+		r := C04Rec{Kind: kind, Beh: bi, Map: mi, Tag: m.Tag, Steps: steps, Match: match}
+		if kind != "replay" {
+			mc := *m
+			r.MapV = &mc
+		}
+		if extra != nil {
+			extra(&r)
+		}
+		vh.Emit(r)
 	}
-	do := func(bi, mi int) error {
-		steps, match, h, err := replayOne(in, &j.Behaviours[bi], &j.Maps[mi])
+	type unit func(in *inst) error
+	work := make(chan unit, 1024)
+	errs := make(chan error, W)
+	var wg sync.WaitGroup
+	for w := 0; w < W; w++ {
+		in, err := newInst(0, 1<<16)
 		if err != nil {
 			return err
 		}
-		hits += h
-		emit("replay", bi, mi, &j.Maps[mi], steps, match, nil)
-		return nil
-	}
-	if len(j.Pairs) > 0 {
-		for _, p := range j.Pairs {
-			if err := do(p[0], p[1]); err != nil {
-				return err
-			}
-		}
-	} else {
-		for bi := range j.Behaviours {
-			for mi := range j.Maps {
-				if err := do(bi, mi); err != nil {
-					return err
+		defer in.close()
+		wg.Add(1)
+		go func() {
+			defer wg.Done()
+			for u := range work {
+				if err := u(in); err != nil {
+					select {
+					case errs <- err:
+					default:
+					}
 				}
 			}
+		}()
+	}
+	pairs := j.Pairs
+	if len(pairs) == 0 {
+		for bi := range j.Behaviours {
+			for mi := range j.Maps {
+				pairs = append(pairs, [2]int{bi, mi})
+			}
 		}
 	}
-	for _, sw := range j.Sweeps {
+	const chunk = 256
+	for lo := 0; lo < len(pairs); lo += chunk {
+		part := pairs[lo:min(lo+chunk, len(pairs))]
+		work <- func(in *inst) error {
+			for _, p := range part {
+				steps, match, h, err := replayOne(in, &j.Behaviours[p[0]], &j.Maps[p[1]])
+				if err != nil {
+					return err
+				}
+				emit("replay", p[0], p[1], &j.Maps[p[1]], steps, match, h, nil)
+			}
+			return nil
+		}
+	}
+	for si := range j.Sweeps {
+		sw := j.Sweeps[si]
 		hi := sw.Hi
 		if hi == 0 {
 			hi = 65535
 		}
-		for v := sw.Lo; v <= hi; v++ {
-			for _, pn := range sw.Partners {
-				w := partner(pn, v)
-				if w == v {
-					continue
+		for lo := sw.Lo; lo <= hi; lo += 1024 {
+			lo, top := lo, min(lo+1023, hi)
+			work <- func(in *inst) error {
+				for v := lo; v <= top; v++ {
+					for _, pn := range sw.Partners {
+						w := partner(pn, v)
+						if w == v {
+							continue
+						}
+						m := sw.Base
+						m.Tag = fmt.Sprintf("sweep-%s-%s", sw.Dim, pn)
+						if sw.Dim == "type" {
+							m.Types = map[string]uint16{sw.SymA: uint16(v), sw.SymB: uint16(w)}
+						} else {
+							m.Classes = map[string]uint16{sw.SymA: uint16(v), sw.SymB: uint16(w)}
+						}
+						steps, match, h, err := replayOne(in, &j.Behaviours[sw.Beh], &m)
+						if err != nil {
+							return err
+						}
+						vv, pp := v, pn
+						emit("sweep", sw.Beh, -1, &m, steps, match, h, func(r *C04Rec) { r.Value, r.Partner = vv, pp })
+					}
 				}
-				m := sw.Base
-				m.Tag = fmt.Sprintf("sweep-%s-%s", sw.Dim, pn)
-				if sw.Dim == "type" {
-					m.Types = map[string]uint16{sw.SymA: uint16(v), sw.SymB: uint16(w)}
-				} else {
-					m.Classes = map[string]uint16{sw.SymA: uint16(v), sw.SymB: uint16(w)}
-				}
-				steps, match, h, err := replayOne(in, &j.Behaviours[sw.Beh], &m)
-				if err != nil {
-					return err
-				}
-				hits += h
-				vv, pp := v, pn
-				emit("sweep", sw.Beh, -1, &m, steps, match, func(r *C04Rec) { r.Value, r.Partner = vv, pp })
+				return nil
 			}
 		}
 	}
+	close(work)
+	wg.Wait()
+	select {
+	case err := <-errs:
+		return err
+	default:
+	}
+	// mass runs: each in its own big instance, in parallel
+	var mwg sync.WaitGroup
+	merr := make(chan error, len(j.Mass)+1)
 	for _, ms := range j.Mass {
-		if err := runMass(in, j, ms, &total, &mism, &hits); err != nil {
-			return err
-		}
+		ms := ms
+		mwg.Add(1)
+		go func() {
+			defer mwg.Done()
+			in, err := newInst(0, 1<<21)
+			if err != nil {
+				merr <- err
+				return
+			}
+			defer in.close()
+			t, mm, hh := 0, 0, 0
+			if err := runMass(in, j, ms, &t, &mm, &hh); err != nil {
+				merr <- err
+			}
+			mu.Lock()
+			total, mism, hits = total+t, mism+mm, hits+hh
+			mu.Unlock()
+		}()
+	}
+	mwg.Wait()
+	select {
+	case err := <-merr:
+		return err
+	default:
 	}
 	vh.Emit(C04Rec{Kind: "summary", N: total, Mism: mism, Hits: hits, Match: mism == 0})
 	return nil
